@@ -745,6 +745,13 @@ impl GlobalInferenceCtx<'_> {
                 // ),
                 _ => ExprMutability::ImmutableRef(self.bodies.range_for_expr(expr)),
             },
+            // `pp^^ = v` / `pp^.a = v`: this dereference yields the pointer that gets dereferenced
+            // next, so its own type has to allow the write as well
+            Expr::Deref { .. }
+                if deref && matches!(self.tys[self.loc][expr].as_pointer(), Some((false, _))) =>
+            {
+                ExprMutability::ImmutableRef(self.bodies.range_for_expr(expr))
+            }
             Expr::Deref { pointer } => self.get_mutability(*pointer, assignment, true),
             // the indexed element is itself the pointer being dereferenced (`ptrs[0]^ = 1`),
             // so its type has the last word
